@@ -208,6 +208,9 @@ def gen_table(rnd, nopts=None, shapes=("unset", "empty", "single", "multi"), wit
                 opt["default"] = gen_values(rnd, typ, rnd.choice(["single", "multi", "multi"]))
         if with_defaults and typ in COMMA_TYPES and rnd.random() < 0.5:
             opt["default"] = [",".join(gen_csv(rnd, typ, rnd.choice([2, 3])))]
+        if with_defaults and kind_of(typ) == "scalar" and typ not in STR_TYPES and rnd.random() < 0.6:
+            # Tor's config/defaults lists every option that has a built-in default ("NumCPUs 0", ...)
+            opt["default"] = [gen_scalar_raw(rnd, typ)]
         table.append(opt)
     return table
 
@@ -328,14 +331,21 @@ class ConfTor(FakeTor):
         return rep
 
 
-def boot(table, no_defaults=False, echo=False, chunking=(1 << 30,)):
+def boot(table, no_defaults=False, echo=False, chunking=(1 << 30,), on_line=None, after_reply=None):
     """real TorControlProtocol + real TorConfig.from_protocol over a ConfTor.
-    -> (cfg | None, failure | None, proto, tor, link)"""
+    -> (cfg | None, failure | None, proto, tor, link)
+    on_line(tor, line) / after_reply(tor, line, code) are called for every command line the attach
+    sends (before its reply is produced / right after it was queued): what they put into the
+    outbox (e.g. ``tor.external_change``) reaches the client between two command round trips."""
     from txtorcon import TorControlProtocol, TorConfig
     tor = ConfTor(table, no_defaults=no_defaults, echo=echo)
     proto = TorControlProtocol()
     link = Link(proto, tor, chunking).connect()
     link.pump()
+    if on_line is not None:
+        tor.on_line.append(lambda line: on_line(tor, line))
+    if after_reply is not None:
+        tor.after_reply = [lambda line, code: after_reply(tor, line, code)]
     out = []
     d = TorConfig.from_protocol(proto)
     d.addBoth(out.append)
